@@ -779,3 +779,30 @@ Theorem C06_fbig_to_float_large_route_refuted :
   flag_of_error 1 Eq = None.
 Proof. exact fbig_to_float_large_route_refuted. Qed.
 Print Assumptions C06_fbig_to_float_large_route_refuted.
+
+(** the literals of the code repaired in the fourth round, regenerated from float/src/convert.rs on every run *)
+From Dashu Require Import Conv.ConvParams4Proof.
+From DashuGen Require Import ConvParams4.
+From Coq Require Import List.
+Import ListNotations.
+
+Theorem C06_source_literals_tie_r4 :
+  binary_to_f32_gen = binary_to_lits P32 /\
+  binary_to_f64_gen = binary_to_lits P64 /\
+  (forall m me s e, round_to_subnormal m me s e =
+     round_to_subnormal_lit (nth 0 round_to_subnormal_gen 0) (nth 1 round_to_subnormal_gen 0) m me s e) /\
+  div_route_shape_gen = [1].
+Proof. exact conv_params4_tie. Qed.
+Print Assumptions C06_source_literals_tie_r4.
+
+(** TryFrom<Relaxed> for UBig / IBig (and the primitive integers) after the repair 4757027 (canonicalise, then test the
+    denominator): for EVERY stored pair, reduced or not, the conversion succeeds exactly on the integers *)
+From Dashu Require Import Conv.ConvRelaxed.
+
+Theorem C06_relaxed_to_ibig : forall N D, 0 < D -> relaxed_try_to_ibig N D = rat_to_int_spec false N D.
+Proof. exact relaxed_try_to_ibig_correct. Qed.
+Print Assumptions C06_relaxed_to_ibig.
+
+Theorem C06_relaxed_to_ubig : forall N D, 0 < D -> relaxed_try_to_ubig N D = rat_to_int_spec true N D.
+Proof. exact relaxed_try_to_ubig_correct. Qed.
+Print Assumptions C06_relaxed_to_ubig.
